@@ -30,7 +30,9 @@ func init() {
 				},
 			},
 			Return: "package",
-			Text: `__defpackage__ Defines a new _package_ with the _name_ and options. Options are:
+			Text: `__defpackage__ Defines a new _package_ with the _name_ and options. The _name_
+is evaluated unless it is a _symbol_ that is not bound to a value in which case the
+_symbol_ itself names the package as in (defpackage quux). Options are:
   :documentation
   :nicknames
   :use
@@ -55,7 +57,10 @@ type Defpackage struct {
 // Call the function with the arguments provided.
 func (f *Defpackage) Call(s *slip.Scope, args slip.List, depth int) (result slip.Object) {
 	slip.CheckArgCount(s, depth, f, args, 1, 7)
-	a0 := slip.EvalArg(s, args, 0, depth)
+	a0 := args[0]
+	if sym, ok := a0.(slip.Symbol); !ok || s.Bound(sym) {
+		a0 = slip.EvalArg(s, args, 0, depth)
+	}
 	name := slip.MustBeString(a0, "name")
 	if slip.FindPackage(name) != nil {
 		slip.ErrorPanic(s, depth, "Package %s already exists.", name)
